@@ -493,6 +493,17 @@ Fixpoint constrain_type (fuel : nat) (e : texpr) (expected : cty) {struct fuel} 
             | CTuple elem_tys => COk (set_ty e (overwrite_fields ty elem_tys))
             | _ => leaf
             end
+        | TRange lo hi UnspecifiedU =>
+            (* fix 7bf4e4f: an unsuffixed range takes the element type of the array type it is used at
+               (its last element hi - 1 must fit); a signed element type is a type error *)
+            match expected with
+            | CArray (CUnsigned u) _ =>
+                if (match unsigned_max u with Some mx => mx <? hi - 1 | None => false end)
+                then CErr E_UnexpectedType
+                else COk (TE (TRange lo hi u) ty)
+            | CArray (CSigned _) _ => CErr E_UnexpectedType
+            | _ => leaf
+            end
         | TMatch s clauses =>
             do clauses' <- mapM (fun pc => do b <- constrain_type f (snd pc) expected; COk (fst pc, b)) clauses;
             COk (TE (TMatch s clauses') ty)
